@@ -56,6 +56,8 @@ def rules(ctx, P, L, exc, suffix=''):
     ctx.rule('C06.6', 'typestate of the peeked message: no use after pop; a processed message is popped exactly once before the next peek; pop only after processing')
     ctx.rule('C06.7', 'a failed allocation leaves no trace: no signal, no success return on the NULL edge of jls_mrb_alloc')
     ctx.rule('C06.8', 'message kinds: every msg_type a sender stores has a case in the dispatch switch; the name table covers every kind; every queue allocation is sizeof(header) + payload')
+    ctx.rule('C06.10', 'the ring never reports a full queue as empty and never hands out bytes of a message that was not popped: on every path of the ring allocator to a non-NULL return the next write index stays strictly below the read index (size + 4 < tail) or inside the ring with room for a wrap marker (size + 8 <= ring size)')
+    ctx.rule('C06.11', 'nothing accepted is abandoned: the consumer leaves its drain loop only on an empty queue and examines `quit` only in the outer loop')
     ctx.rule('C06.9', 'flush tickets: flush_send_id is stored only under the message lock, flush_processed_id only under the process lock (or before the thread starts)')
 
     fns = P.fns_in(TW)
@@ -396,3 +398,7 @@ def rules(ctx, P, L, exc, suffix=''):
                         why = None if MSG in must else (thread_not_running(fn, ev) if ev is not None else None)
                         ctx.ob('C06.9', MSG in must or why is not None, fn.name, 'load of flush_send_id', '%s:%d' % (fn.file, nd.get('ln', 0)),
                                'message lock held' if MSG in must else (why or 'the producers\' ticket counter is read without the message lock'))
+    from .c10c import r15
+    r15(ctx, P, 'C06.10')
+    from .c07 import drain_rule
+    drain_rule(ctx, P, 'C06.11')
